@@ -85,13 +85,16 @@ LoggedVersion(vs, b, k, vid) ==
       ki == CHOOSE j \in 1..Len(vs[bi].keys) : vs[bi].keys[j].k = k
       ni == CHOOSE n \in 1..Len(vs[bi].keys[ki].versions) : vs[bi].keys[ki].versions[n].vid = vid
   IN vs[bi].keys[ki].versions[ni]
-\* pairs <<ETag term, raw etag>> of all live object versions
+\* the raw ETag and x-amz-checksum values the storage reported for a version
+RawDigests(v) == [etag |-> v.etag, crc32 |-> v.cks.crc32, crc32c |-> v.cks.crc32c, crc64 |-> v.cks.crc64,
+                  sha1 |-> v.cks.sha1, sha256 |-> v.cks.sha256, type |-> v.cks.type]
+\* pairs <<digest structure term, raw digests>> of all live object versions
 ETagPairs(St, vs) ==
-  UNION {UNION {{<<ETagTerm(St.objs[b][k][i]), LoggedVersion(vs, b, k, St.objs[b][k][i].vid).etag>> :
+  UNION {UNION {{<<ETagTerm(St.objs[b][k][i]), RawDigests(LoggedVersion(vs, b, k, St.objs[b][k][i].vid))>> :
                    i \in {n \in 1..Len(St.objs[b][k]) : ~St.objs[b][k][n].dm}} : k \in Keys} :
             b \in {x \in Buckets : St.bver[x] # "Absent"}}
 \* functional and injective: same structure <=> same raw ETag
-ETagsConsistent(E) == \A p, q \in E : (p[1] = q[1]) <=> (p[2] = q[2])
+ETagsConsistent(E) == \A p, q \in E : ((p[1] = q[1]) <=> (p[2] = q[2]))
 MTimePairs(St, vs) ==
   UNION {UNION {{<< <<b, k, St.objs[b][k][i].vid, St.objs[b][k][i].mseq>>,
                     LoggedVersion(vs, b, k, St.objs[b][k][i].vid).mtime >> :
@@ -218,6 +221,6 @@ TMTimes == \A p, q \in mtimes : p[1] = q[1] => p[2] = q[2]
 
 \* at the end: print the ETag table so the harness can recompute the digests (C04)
 TDone == IF l = Len(Trace) + 1
-         THEN PrintT(ToJson([etags |-> SetToSeq({[single |-> p[1].single, parts |-> p[1].parts, raw |-> p[2]] : p \in etags})]))
+         THEN PrintT(ToJson([etags |-> SetToSeq({[single |-> p[1].single, parts |-> p[1].parts, ck |-> p[1].ck, raw |-> p[2]] : p \in etags})]))
          ELSE TRUE
 =============================================================================
